@@ -1,16 +1,24 @@
 package dart
 
+import "strings"
+
 
 // HC02_dartKind: the Dart union routines dispatch on the Go member names under Kind/Data.
-func HC02_dartKind() {
+func HC02_dartKind() { dartKind("C02") }
+
+// HC06_union: same clauses, reported under C06.
+func HC06_union() { dartKind("C06") }
+
+func dartKind(prop string) {
 	u, names := c02KindUnion()
 	text := jsonForUnion(u)
 	vfObserve("text", text)
 	text = skelSquash(text)
-	vfAssert(skelHas(text, "json['Kind'] as String") && skelHas(text, "json['Data']"), "C02/dart-reads-kind-and-data")
+	vfAssert(skelHas(text, "json['Kind'] as String") && skelHas(text, "json['Data']"), prop+"/dart-reads-kind-and-data")
 	for _, nm := range names {
-		vfAssert(skelHas(text, "case \""+nm+"\":\n\t\t\treturn "+lowerFirst(nm)+"FromJson(data);"), "C02/dart-fromjson-dispatches-on-the-go-member-name")
-		vfAssert(skelHas(text, "if (item is "+nm+") {\n\t\t\treturn {'Kind': \""+nm+"\", 'Data': "+lowerFirst(nm)+"ToJson(item)};"), "C02/dart-tojson-writes-the-go-member-name-as-kind")
+		class := strings.Title(nm) // the Dart class name; the Kind on the wire stays the Go name
+		vfAssert(skelHas(text, "case \""+nm+"\":\n\t\t\treturn "+lowerFirst(class)+"FromJson(data);"), prop+"/dart-fromjson-dispatches-on-the-go-member-name")
+		vfAssert(skelHas(text, "if (item is "+class+") {\n\t\t\treturn {'Kind': \""+nm+"\", 'Data': "+lowerFirst(class)+"ToJson(item)};"), prop+"/dart-tojson-writes-the-go-member-name-as-kind")
 	}
-	vfAssert(skelCount(text, "'Kind': \"") == len(names), "C02/dart-one-case-per-member")
+	vfAssert(skelCount(text, "'Kind': \"") == len(names), prop+"/dart-one-case-per-member")
 }
